@@ -19,7 +19,7 @@ CMDS = ["address", "export", "public-key", "sign-message", "sign-transaction", "
         "hash-transaction", "hash-typeddata", "hash-typeddata-message-hash", "hash-data"]
 REQUIRED = (["ok-" + c for c in CMDS] + ["selector-default", "selector-index-nonzero", "selector-index-2^31-1", "selector-path", "password-nonempty",
             "flags-vs-env-identical", "both-selectors-flag+flag-refused", "both-selectors-flag+env-refused", "both-selectors-env+env-refused",
-            "input-file", "input-stdin", "sign-raw-digest>=n-valid"])
+            "input-file", "input-stdin", "sign-raw-digest>=n-valid", "input-stdin>64KiB"])
 
 
 def expected_sig_text(key, digest):
@@ -108,6 +108,8 @@ def judge_cmd(case, obs):
         v.bucket("password-nonempty")
     if xm.get("channel"):
         v.bucket("input-" + xm["channel"])
+        if xm["channel"] == "stdin" and len(xm.get("input", "")) > 2 * 65536:
+            v.bucket("input-stdin>64KiB")
     return v
 
 
@@ -135,7 +137,12 @@ def _steps_for(rng, cmd, acc, xm):
     inp = None
     if cmd in ("sign-message", "hash-message", "hash-data"):
         n = rng.choice([0, 1, 12, 100, 1000, rng.randrange(0, 500)])
-        inp = rand_bytes(rng, n)
+        if rng.random() < 0.08:
+            n = rng.choice([65535, 65536, 65537, 100000, 200000])  # more than one pipe buffer through stdin
+        inp = rand_bytes(rng, min(n, 4096)) * (n // 4096 + 1)
+        inp = inp[:n]
+        if rng.random() < 0.3:
+            inp = rng.choice([b"\n", b"hello\n", b"hello\r\n", b"\nhello", b" hello ", b"\x00", b"hello\x00", b"\xef\xbb\xbfhello", inp + b"\n", b"\n" + inp])
     elif cmd in ("sign-transaction", "sign-transaction-sigonly", "hash-transaction"):
         tx = txgen.rand_tx(rng)
         if tx["kind"] == reftx.LEGACY and tx.get("chainId") is None and cmd.startswith("sign"):
